@@ -42,6 +42,10 @@ fn magic_ty(tr8: &str, m: &str, flavor: &str) -> String {
 fn recv_source(r: &Recv) -> String {
     let mut s = String::new();
     let fwd = if r.magic.contains(&"attrs") { ", forward_attrs(doc)" } else { "" };
+    let fwd = match r.flavor.strip_prefix("supports:") {
+        Some(words) => format!("{fwd}, supports({})", words.replace(',', ", ")),
+        None => fwd.to_string(),
+    };
     s.push_str(&format!("#[derive(Debug, darling::{})]\n#[darling(attributes(a){fwd})]\npub struct {} {{\n", r.tr8, r.name));
     for m in &r.magic {
         let with = if *m == "data" && r.flavor == "data_with" { "#[darling(with = data_conv)] " } else { "" };
@@ -76,6 +80,12 @@ fn receivers() -> (Vec<Recv>, Vec<Recv>) {
     elems.extend(subsets("FromField", "F", ["ident", "vis", "ty", "attrs"]));
     elems.extend(subsets("FromVariant", "V", ["ident", "discriminant", "fields", "attrs"]));
     elems.extend(subsets("FromTypeParam", "T", ["ident", "bounds", "default", "attrs"]));
+    // FromVariant receivers that combine supports(..) with the body members
+    for (i, words) in ["unit,newtype", "newtype,unit", "named", "tuple", "any", "unit", "named,tuple,newtype"].iter().enumerate() {
+        let flavor: &'static str = Box::leak(format!("supports:{words}").into_boxed_str());
+        elems.push(Recv { name: format!("VS{i}"), tr8: "FromVariant", magic: vec!["ident", "discriminant", "fields", "attrs"], flavor, run_ty: format!("VS{i}") });
+        elems.push(Recv { name: format!("VT{i}"), tr8: "FromVariant", magic: vec!["fields"], flavor, run_ty: format!("VT{i}") });
+    }
     let all = ["ident", "vis", "generics", "data", "attrs"];
     let mut dis = vec![];
     for mask in 0..32usize {
